@@ -4432,3 +4432,190 @@ mod test_map {
         assert_eq!(dropped.load(Ordering::SeqCst), 1);
     }
 }
+
+/// Read-only verification hooks (cargo feature `verif-hooks`, off by default).
+///
+/// Nothing in here changes table state; the wrappers call the crate's own
+/// functions so that an external harness can observe them.
+#[cfg(feature = "verif-hooks")]
+pub mod verif {
+    use super::{
+        bucket_mask_to_capacity as real_bucket_mask_to_capacity,
+        capacity_to_buckets as real_capacity_to_buckets, Allocator, Group, RawTable,
+        RawTableInner, TableLayout,
+    };
+    use crate::alloc::vec::Vec;
+    use core::mem;
+
+    /// Width in bytes of the control-byte scanner selected for this build.
+    pub const GROUP_WIDTH: usize = Group::WIDTH;
+
+    /// Snapshot of the bookkeeping of a raw table.
+    #[derive(Clone, Debug)]
+    pub struct TableDump {
+        /// `buckets - 1`.
+        pub bucket_mask: usize,
+        /// Number of stored elements according to the table.
+        pub items: usize,
+        /// Remaining never-used slots that may be consumed before growing.
+        pub growth_left: usize,
+        /// All `buckets + GROUP_WIDTH` control bytes (only the `GROUP_WIDTH`
+        /// static bytes for the unallocated singleton).
+        pub ctrl: Vec<u8>,
+        /// `GROUP_WIDTH`.
+        pub group_width: usize,
+        /// `size_of::<T>()`.
+        pub elem_size: usize,
+        /// `align_of::<T>()`.
+        pub elem_align: usize,
+        /// Address of control byte 0.
+        pub ctrl_addr: usize,
+        /// Whether the table is the unallocated singleton.
+        pub is_singleton: bool,
+    }
+
+    impl<T, A: Allocator> RawTable<T, A> {
+        /// Dumps the bookkeeping fields and control bytes.
+        pub fn verif_dump(&self) -> TableDump {
+            let singleton = self.table.is_empty_singleton();
+            let n = if singleton {
+                Group::WIDTH
+            } else {
+                self.table.num_ctrl_bytes()
+            };
+            let mut ctrl = Vec::with_capacity(n);
+            for i in 0..n {
+                // SAFETY: `i` is below the number of control bytes of an allocated
+                // table, or below `Group::WIDTH` for the static empty group.
+                ctrl.push(unsafe { *self.table.ctrl.as_ptr().add(i) });
+            }
+            TableDump {
+                bucket_mask: self.table.bucket_mask,
+                items: self.table.items,
+                growth_left: self.table.growth_left,
+                ctrl,
+                group_width: Group::WIDTH,
+                elem_size: mem::size_of::<T>(),
+                elem_align: mem::align_of::<T>(),
+                ctrl_addr: self.table.ctrl.as_ptr() as usize,
+                is_singleton: singleton,
+            }
+        }
+
+        /// Returns the element stored in bucket `index` if that bucket is full.
+        pub fn verif_bucket(&self, index: usize) -> Option<&T> {
+            if self.table.is_empty_singleton() || index >= self.buckets() {
+                return None;
+            }
+            // SAFETY: index is in range and the bucket is full.
+            unsafe {
+                if self.is_bucket_full(index) {
+                    Some(self.bucket(index).as_ref())
+                } else {
+                    None
+                }
+            }
+        }
+    }
+
+    /// `capacity_to_buckets` for an element of the given size; `cap` must not be 0.
+    pub fn capacity_to_buckets(cap: usize, size: usize, ctrl_align: usize) -> Option<usize> {
+        real_capacity_to_buckets(cap, TableLayout { size, ctrl_align })
+    }
+
+    /// `bucket_mask_to_capacity`.
+    pub fn bucket_mask_to_capacity(bucket_mask: usize) -> usize {
+        real_bucket_mask_to_capacity(bucket_mask)
+    }
+
+    /// `TableLayout::new::<T>()` as `(size, ctrl_align)`.
+    pub fn table_layout<T>() -> (usize, usize) {
+        let l = TableLayout::new::<T>();
+        (l.size, l.ctrl_align)
+    }
+
+    /// `TableLayout::calculate_layout_for` as `(size, align, ctrl_offset)`;
+    /// `buckets` must be a power of two.
+    pub fn calculate_layout_for(
+        size: usize,
+        ctrl_align: usize,
+        buckets: usize,
+    ) -> Option<(usize, usize, usize)> {
+        TableLayout { size, ctrl_align }
+            .calculate_layout_for(buckets)
+            .map(|(l, off)| (l.size(), l.align(), off))
+    }
+
+    /// The first `n` positions (at most one per group of the table) of the
+    /// probe sequence of `hash` in a table with the given mask.
+    pub fn probe_positions(bucket_mask: usize, hash: u64, n: usize) -> Vec<usize> {
+        let inner = RawTableInner {
+            bucket_mask,
+            ..RawTableInner::NEW
+        };
+        let mut seq = inner.probe_seq(hash);
+        let groups = core::cmp::max((bucket_mask + 1) / Group::WIDTH, 1);
+        let n = core::cmp::min(n, groups);
+        let mut out = Vec::with_capacity(n);
+        for i in 0..n {
+            out.push(seq.pos);
+            if i + 1 < n {
+                seq.move_next(bucket_mask);
+            }
+        }
+        out
+    }
+
+    #[cfg(feature = "rayon")]
+    impl<T, A: Allocator> RawTable<T, A> {
+        /// Splits the table's `RawIterRange` along a caller-chosen tree
+        /// (`decide(path)` = split this node?) and returns the bucket indices
+        /// produced by every leaf, in left-to-right order.
+        pub fn verif_split_leaves(
+            &self,
+            decide: &mut dyn FnMut(&[bool]) -> bool,
+        ) -> Vec<Vec<usize>> {
+            fn rec<T, A: Allocator>(
+                table: &RawTable<T, A>,
+                range: super::RawIterRange<T>,
+                path: &mut Vec<bool>,
+                decide: &mut dyn FnMut(&[bool]) -> bool,
+                out: &mut Vec<Vec<usize>>,
+            ) {
+                if decide(path) {
+                    let (left, right) = range.split();
+                    if let Some(right) = right {
+                        path.push(false);
+                        rec(table, left, path, decide, out);
+                        path.pop();
+                        path.push(true);
+                        rec(table, right, path, decide, out);
+                        path.pop();
+                        return;
+                    }
+                    leaf(table, left, out);
+                } else {
+                    leaf(table, range, out);
+                }
+            }
+            fn leaf<T, A: Allocator>(
+                table: &RawTable<T, A>,
+                range: super::RawIterRange<T>,
+                out: &mut Vec<Vec<usize>>,
+            ) {
+                let mut v = Vec::new();
+                for b in range {
+                    // SAFETY: the bucket comes from this table's iterator.
+                    v.push(unsafe { table.bucket_index(&b) });
+                }
+                out.push(v);
+            }
+            let mut out = Vec::new();
+            let mut path = Vec::new();
+            // SAFETY: the table outlives the iterator.
+            let range = unsafe { self.iter().iter };
+            rec(self, range, &mut path, decide, &mut out);
+            out
+        }
+    }
+}
